@@ -601,10 +601,96 @@ class _MatchToIf(ast.NodeTransformer):
         return node
 
 
+def canonical_args_local(fnode):
+    """the one local a command binds to its parsed command line (`x = get_args()`) is called `args` (an alpha-renaming: applied only when
+    that local is bound exactly once, is not a parameter, and nothing else in the function is called `args`)"""
+    cands = [st.targets[0].id for st in ast.walk(fnode) if isinstance(st, ast.Assign) and len(st.targets) == 1 and isinstance(st.targets[0], ast.Name)
+             and isinstance(st.value, ast.Call) and isinstance(st.value.func, ast.Name) and st.value.func.id == "get_args" and not st.value.args and not st.value.keywords]
+    if len(cands) != 1 or cands[0] == "args":
+        return False
+    x = cands[0]
+    stores = sum(1 for n in ast.walk(fnode) if isinstance(n, ast.Name) and n.id == x and isinstance(n.ctx, (ast.Store, ast.Del)))
+    a = fnode.args
+    params = {p.arg for p in a.posonlyargs + a.args + a.kwonlyargs}
+    if stores != 1 or x in params or any(isinstance(n, ast.Name) and n.id == "args" for n in ast.walk(fnode)) or "args" in params:
+        return False
+    for n in ast.walk(fnode):
+        if isinstance(n, ast.Name) and n.id == x:
+            n.id = "args"
+    return True
+
+
+ENCODE_OBS_ROLES = ("y", "cline", "dd1", "dd2")
+
+
+def canonical_encode_obs_locals(fnode):
+    """`a, b, c, d = self.encode_obs()`: the samplers' observation columns are known by position (C08.R11 checks the order encode_obs hands
+    them out in); the locals that receive them are called y, cline, dd1, dd2 (an alpha-renaming, applied only when each renamed local is
+    bound exactly once and the canonical name is not otherwise used in the function)"""
+    sites = [st for st in ast.walk(fnode) if isinstance(st, ast.Assign) and len(st.targets) == 1 and isinstance(st.targets[0], ast.Tuple)
+             and isinstance(st.value, ast.Call) and isinstance(st.value.func, ast.Attribute) and st.value.func.attr == "encode_obs" and not st.value.args]
+    if len(sites) != 1:
+        return False
+    ren = {}
+    for pos, t in enumerate(sites[0].targets[0].elts):
+        if isinstance(t, ast.Starred) or pos >= len(ENCODE_OBS_ROLES):
+            break
+        if isinstance(t, ast.Name) and t.id != "_" and t.id != ENCODE_OBS_ROLES[pos]:
+            ren[t.id] = ENCODE_OBS_ROLES[pos]
+    if not ren:
+        return False
+    a = fnode.args
+    params = {p.arg for p in a.posonlyargs + a.args + a.kwonlyargs}
+    names = [n for n in ast.walk(fnode) if isinstance(n, ast.Name)]
+    for old_, new_ in ren.items():
+        if old_ in params or sum(1 for n in names if n.id == old_ and isinstance(n.ctx, (ast.Store, ast.Del))) != 1 or any(n.id == new_ for n in names) or new_ in params:
+            return False
+    for n in names:
+        if n.id in ren:
+            n.id = ren[n.id]
+    return True
+
+
+def return_of_temporary(fnode):
+    """x = E; return x      (adjacent statements; x a plain local that no nested function mentions)   ->   return E
+    The name adds nothing: the function returns the value of E either way."""
+    stores, loads = {}, {}
+    for n in ast.walk(fnode):
+        if isinstance(n, ast.Name):
+            d = stores if isinstance(n.ctx, (ast.Store, ast.Del)) else loads
+            d[n.id] = d.get(n.id, 0) + 1
+    a = fnode.args
+    params = {p.arg for p in a.posonlyargs + a.args + a.kwonlyargs} | ({a.vararg.arg} if a.vararg else set()) | ({a.kwarg.arg} if a.kwarg else set())
+    declared = {x for n in ast.walk(fnode) if isinstance(n, (ast.Global, ast.Nonlocal)) for x in n.names}
+    # nothing can read this store but the return that follows it - unless a nested function closes over the name
+    nested = {x.id for n in ast.walk(fnode) if n is not fnode and isinstance(n, (ast.FunctionDef, ast.AsyncFunctionDef, ast.Lambda)) for x in ast.walk(n) if isinstance(x, ast.Name)}
+    changed = False
+    for owner in ast.walk(fnode):
+        for fld in ("body", "orelse", "finalbody"):
+            lst = getattr(owner, fld, None)
+            if not (isinstance(lst, list) and lst and isinstance(lst[0], ast.stmt)):
+                continue
+            k = 0
+            while k + 1 < len(lst):
+                a_, r_ = lst[k], lst[k + 1]
+                if isinstance(a_, ast.Assign) and len(a_.targets) == 1 and isinstance(a_.targets[0], ast.Name) and isinstance(r_, ast.Return) and isinstance(r_.value, ast.Name) \
+                        and r_.value.id == a_.targets[0].id and r_.value.id not in declared | nested:
+                    lst[k:k + 2] = [ast.copy_location(ast.Return(value=a_.value), r_)]
+                    changed = True
+                    continue
+                k += 1
+    return changed
+
+
 def apply_synonyms(repo):
     n = 0
     for f in repo.funcs.values():
         before = ast.dump(f.node)
+        return_of_temporary(f.node)
+        if f.name == "main":
+            canonical_args_local(f.node)
+        if f.cls:
+            canonical_encode_obs_locals(f.node)
         f.node = _MatchToIf().visit(f.node)
         f.node = _Synonyms().visit(f.node)
         f.node = _StmtSynonyms().visit(f.node)
